@@ -11,7 +11,7 @@
 (* re-synchronised with the observation, and validation continues, so the  *)
 (* whole corpus is always examined.                                        *)
 (***************************************************************************)
-EXTENDS RosmarStore, Json, IOUtils
+EXTENDS RosmarStore, Json, IOUtils, SequencesExt, FiniteSetsExt
 
 TraceFile == IOEnv.VERIF_TRACE
 BodyFile  == IOEnv.VERIF_BODIES
@@ -28,8 +28,10 @@ VARIABLES l,      \* next trace line
           dumps,  \* last recorded backfill of every collection
           clock,  \* highest CAS issued by the regular write API so far (rank)
           start,  \* backfill start CAS of this trace, per collection
-          nfail   \* number of FAIL tuples printed so far
-vars == <<l, docs, obs, dumps, clock, start, nfail>>
+          nfail,  \* number of FAIL tuples printed so far
+          evlog,  \* per collection: <<line, event>> of every mutation so far (concurrent traces)
+          verlog  \* per collection: <<line, event>> describing every version a key has had
+vars == <<l, docs, obs, dumps, clock, start, nfail, evlog, verlog>>
 
 B(tok) == BodyTab[tok]
 XV(x)  == [t |-> x.t, cas |-> x.cas, crc |-> B(x.crc)]
@@ -97,6 +99,7 @@ PropsOf(e, pre, post) ==
     \cup (IF e.op \in XattrOps THEN {"C07"} ELSE {})
     \cup (IF e.op \in SubdocOps THEN {"C18"} ELSE {})
     \cup (IF IsTomb(pre) \/ IsTomb(post) THEN {"C05"} ELSE {})
+    \cup (IF e.p \notin {"-", "setup"} THEN {"C03"} ELSE {})
 
 ---------------------------------------------------------------------------
 Init == /\ l = 1
@@ -106,6 +109,8 @@ Init == /\ l = 1
         /\ clock = 0
         /\ start = [c \in Colls |-> 0]
         /\ nfail = 0
+        /\ evlog = [c \in Colls |-> <<>>]
+        /\ verlog = [c \in Colls |-> <<>>]
 
 Reset(e) ==
     /\ docs' = [c \in Colls |-> [k \in Keys |-> AbsentDoc]]
@@ -114,6 +119,8 @@ Reset(e) ==
     /\ clock' = 0
     /\ start' = [c \in Colls |-> e.start[c]]
     /\ nfail' = nfail
+    /\ evlog' = [c \in Colls |-> <<>>]
+    /\ verlog' = [c \in Colls |-> <<>>]
 
 (* new observation table after line e *)
 NewObs(e) ==
@@ -152,6 +159,8 @@ ExpectedDump(c, ds, s0) ==
 DumpBody(dump) ==
     IF Len(dump) >= 2 /\ dump[1].op = "begin" /\ dump[Len(dump)].op = "end"
     THEN SubSeq(dump, 2, Len(dump) - 1) ELSE <<[op |-> "malformed"]>>
+
+SumOver(S, f(_)) == FoldSet(LAMBDA x, acc : acc + f(x), 0, S)
 
 Purged(ds) == [c \in Colls |-> [k \in Keys |-> IF IsTomb(ds[c][k]) THEN AbsentDoc ELSE ds[c][k]]]
 
@@ -224,6 +233,7 @@ Call(e) ==
         \* ---- live feed: exactly one faithful event per mutation, none otherwise (C08)
         liveWant(c2) == IF c2 = c /\ mut /\ ~isPurge THEN <<EventOf(k, post, CollId(c))>> ELSE <<>>
         fLive ==
+            IF e.skiplive THEN 0 ELSE
             Cardinality({c2 \in Colls : LiveOf(e, c2) # liveWant(c2)
                 /\ LET got == LiveOf(e, c2)
                        want == liveWant(c2) IN
@@ -233,6 +243,7 @@ Call(e) ==
                         e, <<"live", c2, Class(pre)>>, BriefEvs(want), BriefEvs(got))})
         \* ---- backfill: a faithful snapshot, equal to what live events say (C09)
         fDump ==
+            IF e.skiplive THEN 0 ELSE
             Cardinality({c2 \in Colls : (c2 \in DumpLogged(e) \/ (c2 = c /\ mut) \/ isPurge)
                 /\ DumpBody(nd[c2]) # ExpectedDump(c2, newDocs[c2], start[c2])
                 /\ LET got == DumpBody(nd[c2])
@@ -248,12 +259,97 @@ Call(e) ==
     /\ clock' = IF mut /\ regular /\ ~isPurge /\ postObs.cas > clock THEN postObs.cas ELSE clock
     /\ start' = start
     /\ nfail' = nfail + fStep + fRev + fFresh + fReaders + fOthers + fLive + fDump
+    /\ evlog' = IF mut /\ ~isPurge THEN [evlog EXCEPT ![c] = Append(@, <<e.i, EventOf(k, post, CollId(c))>>)] ELSE evlog
+    /\ verlog' = [c2 \in Colls |->
+                    LET ks == {k2 \in Keys : newDocs[c2][k2] # docs[c2][k2]} IN
+                    verlog[c2] \o SetToSeq({<<e.i, EventOf(k2, newDocs[c2][k2], CollId(c2))>> : k2 \in ks})]
+
+
+---------------------------------------------------------------------------
+(* Concurrent traces: what every feed delivered, checked at quiescence.    *)
+MutEvs(s) == SelectSeq(s, LAMBDA v : v.op \in {"mut", "del"})
+LogEvs(lg) == {lg[i][2] : i \in 1..Len(lg)}
+(* the version of key k in collection c after call line j (AbsentDoc's event never appears) *)
+VersionsOf(c, k, j) == {i \in 1..Len(verlog[c]) : verlog[c][i][2].key = k /\ verlog[c][i][1] <= j}
+HasVersionAt(c, k, j) == VersionsOf(c, k, j) # {}
+VersionAt(c, k, j) == LET is == VersionsOf(c, k, j)
+                          m == CHOOSE i \in is : \A i2 \in is : i2 <= i IN verlog[c][m][2]
+Count(s, ev) == Cardinality({i \in 1..Len(s) : s[i] = ev})
+
+FeedFail(props, e, f, what, exp, got) ==
+    PrintT(<<"FAIL", props, e.tr, 0, e.mode, "feed", <<what, f.id, f.run, f.c, f.backfill, f.dump>>, exp, got>>)
+
+Feeds(e) ==
+    LET fs == e.feeds
+        ids == {fs[i].id : i \in 1..Len(fs)}
+        chk(i) ==
+            LET f == fs[i]
+                c == f.c
+                D == MutEvs(EvsOf(f.evs))
+                live == f.endline = -1 /\ f.regline >= 0      \* still running at quiescence
+                cprops == IF f.ckpt # "" THEN {"C15"} ELSE {}
+                \* C08 / C09: increasing CAS order
+                fOrder == IF \A a, b \in 1..Len(D) : a < b => D[a].cas < D[b].cas THEN 0
+                          ELSE IF FeedFail({"C08", "C09"} \cup cprops, e, f, "cas-order", "increasing", BriefEvs(D)) THEN 1 ELSE 1
+                \* C08: nothing is delivered that no mutation produced
+                spurious == {a \in 1..Len(D) : D[a] \notin LogEvs(evlog[c]) \cup LogEvs(verlog[c])}
+                fSpur == IF spurious = {} THEN 0
+                         ELSE IF FeedFail({"C08", "C09"}, e, f, "spurious-event", "an event of a recorded version",
+                                          BriefEvs([a \in 1..Len(D) |-> D[a]])) THEN 1 ELSE 1
+                \* C08: a feed that is running delivers every later mutation exactly once
+                owed == {a \in 1..Len(evlog[c]) : evlog[c][a][1] > f.regline}
+                fOnce == IF ~live THEN 0
+                         ELSE Cardinality({a \in owed : Count(D, evlog[c][a][2]) # 1
+                                /\ FeedFail({"C08"} \cup cprops, e, f, "not-exactly-once", BriefEv(evlog[c][a][2]),
+                                            <<Count(D, evlog[c][a][2]), f.regline, evlog[c][a][1]>>)})
+                \* C09: backfill + live deliver the final version of every key (running feed with backfill);
+                \* a dump delivers the snapshot as of its backfill
+                fFinal == IF f.backfill # "zero" THEN 0
+                          ELSE IF f.dump
+                          THEN Cardinality({k \in Keys : HasVersionAt(c, k, f.bfline)
+                                  /\ VersionAt(c, k, f.bfline).cas >= start[c]
+                                  /\ Count(D, VersionAt(c, k, f.bfline)) # 1
+                                  /\ FeedFail({"C09"}, e, f, "dump-not-snapshot", BriefEv(VersionAt(c, k, f.bfline)), BriefEvs(D))})
+                          ELSE IF ~live THEN 0
+                          ELSE Cardinality({k \in Keys : ~IsAbsent(docs[c][k]) /\ docs[c][k].cas >= start[c]
+                                  /\ Count(D, EventOf(k, docs[c][k], CollId(c))) = 0
+                                  /\ FeedFail({"C09"}, e, f, "final-version-lost", BriefEv(EventOf(k, docs[c][k], CollId(c))),
+                                              <<f.bfline, f.regline, BriefEvs(D)>>)})
+                \* C16: nothing is delivered after the done channel closed
+                fAfter == IF f.afterend = 0 THEN 0
+                          ELSE IF FeedFail({"C16"}, e, f, "callback-after-end", 0, f.afterend) THEN 1 ELSE 1
+            IN fOrder + fSpur + fOnce + fFinal + fAfter
+        \* C15: the runs of one checkpointed feed, taken together
+        runsOf(id) == {i \in 1..Len(fs) : fs[i].id = id}
+        chk15(id) ==
+            LET rs == runsOf(id)
+                any == CHOOSE i \in rs : TRUE
+                f == fs[any]
+                c == f.c
+                lastRun == CHOOSE i \in rs : \A i2 \in rs : fs[i2].run <= fs[i].run
+                lastLive == fs[lastRun].dump \/ (fs[lastRun].endline = -1 /\ fs[lastRun].regline >= 0)
+                all == UNION {{MutEvs(EvsOf(fs[i].evs))[a] : a \in 1..Len(MutEvs(EvsOf(fs[i].evs)))} : i \in rs}
+                maxDelivered == IF all = {} THEN 0 ELSE CHOOSE m \in {v.cas : v \in all} : \A v \in all : v.cas <= m
+                fSkip == IF ~lastLive THEN 0
+                         ELSE Cardinality({k \in Keys : ~IsAbsent(docs[c][k]) /\ docs[c][k].cas >= start[c]
+                                /\ (fs[lastRun].dump => HasVersionAt(c, k, fs[lastRun].bfline) /\ VersionAt(c, k, fs[lastRun].bfline) = EventOf(k, docs[c][k], CollId(c)))
+                                /\ EventOf(k, docs[c][k], CollId(c)) \notin all
+                                /\ FeedFail({"C15"}, e, f, "skipped-across-runs", BriefEv(EventOf(k, docs[c][k], CollId(c))),
+                                            [i \in rs |-> BriefEvs(MutEvs(EvsOf(fs[i].evs)))])})
+                ck == fs[lastRun].ckptcas
+                fCkpt == IF ck <= maxDelivered THEN 0
+                         ELSE IF FeedFail({"C15"}, e, f, "checkpoint-above-delivered", maxDelivered, ck) THEN 1 ELSE 1
+            IN IF f.ckpt = "" THEN 0 ELSE fSkip + fCkpt
+        total == SumOver(1..Len(fs), chk) + SumOver(ids, chk15)
+    IN
+    /\ UNCHANGED <<docs, obs, dumps, clock, start, evlog, verlog>>
+    /\ nfail' = nfail + total
 
 Next ==
     /\ l <= Len(TraceLog)
     /\ l' = l + 1
     /\ LET e == TraceLog[l] IN
-       IF e.k = "reset" THEN Reset(e) ELSE Call(e)
+       IF e.k = "reset" THEN Reset(e) ELSE IF e.k = "feeds" THEN Feeds(e) ELSE Call(e)
 
 Spec == Init /\ [][Next]_vars
 
